@@ -435,11 +435,11 @@ def h_server_publish(stored: bool, old_has_seq: bool, old_seq: int, new_kind: in
 
 # ---- one key, one identity: spellings of the same verifying key must not open a second index entry ----------------
 
-def _alias_last_char(b32):
+def _alias_last_char(b32, bit=1):
     """same 32 bytes, non-canonical last character: 52 base32 characters carry 260 bits, the 4 spare bits of the last one set to non-zero"""
     alphabet = b"abcdefghijklmnopqrstuvwxyz234567"
     v = alphabet.index(b32[-1:])
-    return b32[:-1] + alphabet[v | 1:(v | 1) + 1]
+    return b32[:-1] + alphabet[v | bit:(v | bit) + 1]
 
 
 _B32_A = base32.b2a(b"A" * 32)
@@ -450,7 +450,8 @@ SPELLINGS = [KEY_A,                                   # 0 canonical
              b"v0- " + _B32_A,                        # 4 blank after the version prefix
              b"V0-" + _B32_A,                         # 5 upper-cased version prefix
              b"v0-" + _alias_last_char(_B32_A),       # 6 non-canonical last character (spare bits set)
-             b"v0-" + _B32_A[:26].upper() + _B32_A[26:]]   # 7 mixed case
+             b"v0-" + _B32_A[:26].upper() + _B32_A[26:],   # 7 mixed case
+             b"v0-" + _alias_last_char(_B32_A, 8)]    # 8 non-canonical last character (highest spare bit set)
 _MSG_SEQ = {1: _msg(0, 1), 2: _msg(0, 2)}
 _SIG = b"v0-" + base32.b2a(b"S" * 64)
 
